@@ -107,9 +107,9 @@ Definition crash_call (c : config) : bool :=
   (negb (entry_eqb (en c) EJac) && negb (inplace c) && negb (vec c))
   || (entry_eqb (en c) EJac && vec c && delay_eqb (dl c) DPast)
   || (backend_eqb (be c) BJax && entry_eqb (en c) ERun && uses_history c
-      && (solver_eqb (so c) SEuler || solver_eqb (so c) SHeun || solver_eqb (so c) SDiffrax))
-  || (backend_eqb (be c) BFortran && negb (entry_eqb (en c) EJac)
-      && (delay_eqb (dl c) DSpread || uses_edge_delay_buffer c)).
+      && (solver_eqb (so c) SEuler || solver_eqb (so c) SHeun || solver_eqb (so c) SDiffrax)).
+(* Fortran: the only downstream failure is the f2py compilation (crash_gen), provided every compiled model gets its own
+   module name — under one name a process keeps returning the first model's routine (D29), which then fails at the call *)
 Definition crash (b : bool) : result := if b then Err EOther else Ok.
 
 Definition outcome (c : config) : result :=
@@ -266,30 +266,34 @@ Definition WFnet (net : network) : Prop :=
      except KeyError: if hasattr(self, key): item = getattr(self, key) else raise
    `attrs` are the attribute names of the circuit object (dir()).  A fourth component is looked up on a variable
    dictionary: AttributeError (not caught by __contains__). *)
-Definition key_fallback (attrs : list string) (key : string) : result :=
-  if mem key attrs then Ok else Err EPyRates.
-Definition verify_path (attrs : list string) (net : network) (p : path) : result :=
+(* ONE-LINE MODEL SWITCH (read by harness/c20.py too): false = the code as it is (attribute fallback, finding F3);
+   true = the code with /verif/fixes/proposed_fix_C20_F3.diff applied (`__contains__` resolves strictly). *)
+Definition fixed_F3 : bool := false.
+Definition key_fallback (fixed : bool) (attrs : list string) (key : string) : result :=
+  if negb fixed && mem key attrs then Ok else Err EPyRates.
+Definition verify_path_gen (fixed : bool) (attrs : list string) (net : network) (p : path) : result :=
   match p with
   | [] => Err EOther
   | n :: rest =>
       match lookup n net with
-      | None => key_fallback attrs n
+      | None => key_fallback fixed attrs n
       | Some ops =>
           match rest with
           | [] => Ok
           | o :: rest' =>
               match lookup o ops with
-              | None => key_fallback attrs o
+              | None => key_fallback fixed attrs o
               | Some vars =>
                   match rest' with
                   | [] => Ok
                   | v :: rest'' => if mem v vars then (match rest'' with [] => Ok | _ => Err EOther end)
-                                   else key_fallback attrs o
+                                   else key_fallback fixed attrs o
                   end
               end
           end
       end
   end.
+Definition verify_path := verify_path_gen fixed_F3.
 
 (* Impl, frontend route (CircuitTemplate.apply / collect_edges / _group_edges): an edge endpoint that does not
    resolve raises KeyError before the IR-level _verify_path is reached *)
@@ -337,6 +341,37 @@ Definition node_value_before_D49 (net : network) (p : path) : result :=
   | _ => Err EOther
   end.
 
+(* ---- hierarchical circuits (CircuitTemplate(circuits={...}), depth >= 1): a node is addressed by
+        <circuit>/.../<node>/<op>/<var>.  get_nodes / get_node_template walk the circuit levels with `net[level]`:
+        a circuit level that does not exist raises KeyError (class D31 of C06) before anything else is looked at; below
+        the circuit levels the flat rules apply to the addressed sub-circuit.  An extrinsic input on a circuit of depth
+        >= 2 raises AttributeError whatever it addresses (D30 of C08). ---- *)
+Definition hnode := (list string * list opd)%type.       (* full key of the node: circuit levels ++ [node name] *)
+Definition hnetwork := list hnode.
+Fixpoint list_eqb (a b : list string) : bool :=
+  match a, b with
+  | [], [] => true
+  | x :: a', y :: b' => String.eqb x y && list_eqb a' b'
+  | _, _ => false
+  end.
+Definition circuit_known (hnet : hnetwork) (cp : list string) : bool :=
+  existsb (fun nd => list_eqb (firstn (List.length cp) (removelast (fst nd))) cp) hnet.
+(* the flat network of the sub-circuit addressed by the circuit levels cp *)
+Definition subnet (hnet : hnetwork) (cp : list string) : network :=
+  flat_map (fun nd => if list_eqb (removelast (fst nd)) cp then [(last (fst nd) "", snd nd)] else []) hnet.
+Inductive hkind := HEdge | HInput | HUpdate | HNodeValue | HOutput.
+Definition flat_probe_result (k : hkind) (depth : nat) (net : network) (p : path) : result :=
+  match k with
+  | HEdge => edge_endpoint net p
+  | HInput => if Nat.leb 2 depth then Err EOther else add_input net p
+  | HUpdate => update_var net p
+  | HNodeValue => node_value net p
+  | HOutput => resolve_outputs net [p]
+  end.
+Definition hier_result (k : hkind) (depth : nat) (hnet : hnetwork) (p : path) : result :=
+  let cp := firstn depth p in
+  if circuit_known hnet cp then flat_probe_result k depth (subnet hnet cp) (skipn depth p) else Err EOther.
+
 (* =====================================================================================================
    Part 4 — the operator graph of a node: ir/operator_graph.py:52-95
    ===================================================================================================== *)
@@ -376,15 +411,9 @@ Definition CyclicSet (nodes : list string) (edges : list (string * string)) (S :
    `_uses_edge_delay_buffer`, so the guards treat it like DDiscrete; the vectorized compilation of this probe model
    fails with KeyError today (loud, class EOther). *)
 Definition mixed_config (b : backend) (s : solver) (v : bool) (e : entry) : config := mkc b s v DDiscrete false true e.
-(* Fortran, not vectorized, fixed step, `run`: with the plain-delay edge first the generated routine happens to work,
-   in the other order (and for a purely discrete model) the first call fails (Guards.crash_call) *)
-Definition mixed_fortran_runs (b : backend) (s : solver) (first_plain : bool) (e : entry) : bool :=
-  backend_eqb b BFortran && first_plain && negb (is_integration_adaptive s) && entry_eqb e ERun.
 Definition mixed_outcome (b : backend) (s : solver) (v : bool) (first_plain : bool) (e : entry) : result :=
   andthen (validate_backend_args (mixed_config b s v e))
-          (if v then Err EOther
-           else if mixed_fortran_runs b s first_plain e then Ok
-           else outcome (mixed_config b s v e)).
+          (if v then Err EOther else outcome (mixed_config b s v e)).
 
 Inductive probe :=
   | PConfig (c : config)
@@ -399,7 +428,8 @@ Inductive probe :=
   | PUpdate (net : network) (p : path)
   | POutputs (net : network) (outs : list path)
   | PNodeValue (net : network) (p : path)
-  | POpGraph (ops : list opdecl).
+  | POpGraph (ops : list opdecl)
+  | PHier (k : hkind) (depth : nat) (hnet : hnetwork) (p : path).
 
 Definition impl (p : probe) : result :=
   match p with
@@ -416,6 +446,7 @@ Definition impl (p : probe) : result :=
   | POutputs net outs => resolve_outputs net outs
   | PNodeValue net p => node_value net p
   | POpGraph ops => check_op_graph ops
+  | PHier k depth hnet p => hier_result k depth hnet p
   end.
 
 Definition Path3 (net : network) (p : path) : Prop := Present net p /\ List.length p = 3.
@@ -439,6 +470,12 @@ Definition WellFormed (p : probe) : Prop :=
   | PNodeValue net p => NodeValueTarget net p
   | POutputs net outs => forall o, In o outs -> Path3 net o
   | POpGraph ops => ~ exists S, CyclicSet (map oname ops) (op_edges ops) S
+  | PHier k depth hnet p =>      (* the circuit levels name an existing circuit and the rest is present in it *)
+      circuit_known hnet (firstn depth p) = true /\
+      match k with
+      | HNodeValue => NodeValueTarget (subnet hnet (firstn depth p)) (skipn depth p)
+      | _ => Path3 (subnet hnet (firstn depth p)) (skipn depth p)
+      end
   end.
 Definition path3b (net : network) (p : path) : bool := presentb net p && Nat.eqb (List.length p) 3.
 Definition node_value_targetb (net : network) (p : path) : bool :=
@@ -459,24 +496,32 @@ Definition wellformedb (p : probe) : bool :=
   | PNodeValue net p => node_value_targetb net p
   | POutputs net outs => forallb (path3b net) outs
   | POpGraph ops => match toposort (map oname ops) (op_edges ops) with Some _ => true | None => false end
+  | PHier k depth hnet p =>
+      circuit_known hnet (firstn depth p) &&
+      match k with
+      | HNodeValue => node_value_targetb (subnet hnet (firstn depth p)) (skipn depth p)
+      | _ => path3b (subnet hnet (firstn depth p)) (skipn depth p)
+      end
   end.
 
 (* representation invariant of the probe (dictionary keys are unique) *)
 Definition WFprobe (p : probe) : Prop :=
   match p with
   | PVerifyPath _ net _ | PEdge net _ | PInput net _ | PUpdate net _ | POutputs net _ | PNodeValue net _ => WFnet net
+  | PHier _ depth hnet p => WFnet (subnet hnet (firstn depth p))
   | _ => True
   end.
 Definition wfprobeb (p : probe) : bool :=
   match p with
   | PVerifyPath _ net _ | PEdge net _ | PInput net _ | PUpdate net _ | POutputs net _ | PNodeValue net _ => wf_netb net
+  | PHier _ depth hnet p => wf_netb (subnet hnet (firstn depth p))
   | _ => true
   end.
 
 (* Guard: the class of requests outside of which the code is known NOT to be loud (known finding F3) *)
 (* no component of the path is an attribute name of the circuit object *)
 Definition guard_path_not_attr (p : probe) : bool :=
-  match p with PVerifyPath attrs _ pa => forallb (fun k => negb (mem k attrs)) pa | _ => true end.
+  match p with PVerifyPath attrs _ pa => fixed_F3 || forallb (fun k => negb (mem k attrs)) pa | _ => true end.
 Definition guard (p : probe) : bool := guard_path_not_attr p.
 
 (* what the property demands of an observed outcome: a request that is not well-formed must not return quietly;
@@ -486,6 +531,12 @@ Definition warn_suffices (p : probe) : bool :=
   match p with
   | PInput _ _ | PUpdate _ _ => true
   | PNodeValue net (n :: _) => match node_targets net n with [] => true | _ => false end
+  | PHier HInput _ _ _ | PHier HUpdate _ _ _ => true
+  | PHier HNodeValue depth hnet p =>
+      match skipn depth p with
+      | n :: _ => match node_targets (subnet hnet (firstn depth p)) n with [] => true | _ => false end
+      | [] => false
+      end
   | _ => false
   end.
 Definition meets_spec (p : probe) (observed : result) : bool :=
